@@ -35,6 +35,7 @@ REQUIRED = {
         'storm-depths-checked': 100,
         'exact-arithmetic-datasets': 50,
         'contract-evaluations:spowtd.classify.get_true_interval_masks': 100,
+        'classifications-of-records-with-2000+-steps': 4,
     }
     for tier in ('quick', 'thorough')
 }
